@@ -1,6 +1,7 @@
 import Exetera.Props.C16
 import Exetera.Props.C10.Basic
 import Exetera.Model.KernelSitesConcat
+import Exetera.Model.KernelPathsConcat
 import Exetera.Lemmas.NoOobConcat
 /-!
 # C10 — span concatenation: `_apply_spans_concat_2` and its batch driver (owning property: C16)
@@ -11,6 +12,14 @@ open Exetera Exetera.Concat Exetera.Spec.CsvLine
 variable {α : Type} [DecidableEq α]
 
 theorem access_sites_covered_concat : ∀ k ∈ KernelSites.concatSites, lookup k.1 = some k := by decide +kernel
+
+/-- the PATH CONDITION of every subscript occurrence in these kernels (enclosing loop guards, `if` / `elif` tests, negated
+    `else` branches and early exits), as regenerated from the current source (`Gen/KernelPaths.lean`), is exactly the one the
+    model was written against (`Model/KernelPathsConcat.lean`): dropping or changing a test that dominates a subscript breaks
+    the build; and the table covers exactly the kernels of the site table -/
+theorem access_paths_covered_concat :
+    (∀ k ∈ KernelPaths.concatPaths, lookupPaths k.1 = some k) ∧
+    KernelPaths.concatPaths.map (·.1) = KernelSites.concatSites.map (·.1) := by decide +kernel
 
 example : KernelSites.concatSites.length = 1 := by decide
 
